@@ -576,8 +576,10 @@ def check_slant_reference(case, rec):
     classes = _geometry_classes(model, g, step, pcs)
     top = ref.MODELS[model]["coef"][-1][0]
     if _ambiguous(g):
-        require(x <= 100.0 * top * 2 * step,
-                "surface-grazing line gave %r > 100*rho*2*step (%r, %r, step %r)", x, ep, u, step)
+        # (a graze within 1e-5 m is a chord of at most 2 sqrt(2 R 1e-5) = 22.6 m, which is
+        # longer than two steps when the step is a few metres)
+        require(x <= 100.0 * top * (2 * step + 23.0),
+                "surface-grazing line gave %r > 100*rho*(2*step + 23 m) (%r, %r, step %r)", x, ep, u, step)
         rec.case(case, nontrivial=False, classes=["ambiguous_surface_graze"])
         return
     if not g["enters"]:
